@@ -23,7 +23,7 @@ DEADLINE = 300
 
 def cases(tier, seed):
     rng = random.Random(f"C09/{seed}")
-    nmax, count, amb = (6, 7000, 1500) if tier == "quick" else (8, 30000, 8000)
+    nmax, count, amb = (6, 7000, 1500) if tier == "quick" else (8, 60000, 16000)
     cl = [("rand", 4), ("rand-wide", 2), ("gadget", 3), ("inputs", 3), ("dense-neg", 2)]
     nets = gen.corpus() + [gen.exh2(i) for i in range(256)] + [gen.draw(rng, cl, nmax) for _ in range(count)]
     out = [{"net": n, "cls": n["cls"], "mode": "direct", "rs": rng.randrange(1 << 30)} for n in nets if len(n["names"]) <= 9]
